@@ -108,12 +108,35 @@ type c05Case struct {
 	fixedM  int32 // metric with a fixed per-metric budget (0 = none)
 	fixedB  uint32
 	variant int
+	// large-group family: largeN identical rows of metric 1 with size largeSize (rows is empty then)
+	largeN, largeSize int
+	maxGrid           int  // 0 = c05MaxGrid
+	bounded           bool // selection draws cost a deviation (deviation-bounded exploration of the large-group family)
+}
+
+// rowTypes resolves the rows of the case.
+func (c *c05Case) rowTypes() []c05RowType {
+	if c.largeN > 0 {
+		out := make([]c05RowType, c.largeN)
+		for i := range out {
+			out[i] = c05RowType{name: "big", metric: 1, key: 1, size: c.largeSize, whale: 1}
+		}
+		return out
+	}
+	out := make([]c05RowType, len(c.rows))
+	for i, r := range c.rows {
+		out[i] = c05Alphabet[r]
+	}
+	return out
 }
 
 func (c *c05Case) String() string {
 	var names []string
 	for _, r := range c.rows {
 		names = append(names, c05Alphabet[r].name)
+	}
+	if c.largeN > 0 {
+		names = append(names, fmt.Sprintf("%d identical rows of metric 1, size %d each", c.largeN, c.largeSize))
 	}
 	fl := []string{"ModeAgent", "SampleKeepSingle", "DisableNoSampleAgent", "SampleBudgets", "SampleNamespaces", "SampleGroups", "SampleKeys"}
 	var on []string
@@ -139,6 +162,8 @@ type c05RowObs struct {
 type c05ExecObs struct {
 	path string // rounding outcomes, 'U'/'D'/'=' (= : integral argument, no draw needed)
 	rows []c05RowObs
+	// draws the sampler's generator answered: Float64 draws and integer draws
+	drawsF, drawsN int
 }
 
 // c05RoundHook answers the single Float64 draw of roundSampleFactor with a value below or above delta.
@@ -149,10 +174,17 @@ func (h c05RoundHook) Uint64n(n uint64) uint64 { return 0 }
 func (h c05RoundHook) Uint64() uint64          { return 0 }
 
 func c05Run(x *mc.Exec, c *c05Case, meta *c05Meta, grid int, forced string) (obs c05ExecObs) {
-	obs.rows = make([]c05RowObs, len(c.rows))
+	rts := c.rowTypes()
+	obs.rows = make([]c05RowObs, len(rts))
 	var path []byte
 	r := rand.New(1)
-	r.Hook = &mc.ChoiceRand{X: x, Grid: grid, Free: true}
+	r.Hook = &mc.ChoiceRand{X: x, Grid: grid, Free: !c.bounded, Log: func(kind string, _ int, _ int) {
+		if kind == "f" {
+			obs.drawsF++
+		} else {
+			obs.drawsN++
+		}
+	}}
 	rr := rand.New(1)
 	cfg := SamplerConfig{
 		ModeAgent:            c.flags&1 != 0,
@@ -211,8 +243,7 @@ func c05Run(x *mc.Exec, c *c05Case, meta *c05Meta, grid int, forced string) (obs
 		},
 	}
 	s := NewSampler(cfg)
-	for i, ri := range c.rows {
-		rt := c05Alphabet[ri]
+	for i, rt := range rts {
 		it := &MultiItem{Key: Key{Metric: rt.metric}, SF: 1}
 		it.Key.Tags[0] = rt.key
 		it.Key.Tags[1] = int32(i + 1)
@@ -257,7 +288,7 @@ func c05Explore(c *c05Case, meta *c05Meta, grid int, forced string, maxExec int6
 		seen[key] = obs
 		for i, o := range obs.rows {
 			if o.keeps+o.discards != 1 {
-				return mc.Verdict{Violation: fmt.Sprintf("row %d (%s) got %d keep and %d discard callbacks | case: %s", i, c05Alphabet[c.rows[i]].name, o.keeps, o.discards, c.String()),
+				return mc.Verdict{Violation: fmt.Sprintf("row %d (%s) got %d keep and %d discard callbacks | case: %s", i, c.rowTypes()[i].name, o.keeps, o.discards, c.String()),
 					Sig: "C05:row-callbacks-not-exactly-one", Detail: c.String()}
 			}
 		}
@@ -272,6 +303,11 @@ const c05MaxGrid = 48
 func c05CheckCase(c *c05Case, meta *c05Meta, maxExec int64) (res c05CaseResult, stats []mc.Stats) {
 	viol := func(sig, f string, a ...any) {
 		res.viol = append(res.viol, c05Viol{"C05:" + sig, fmt.Sprintf(f, a...) + " | case: " + c.String()})
+	}
+	rts := c.rowTypes()
+	maxGrid := c.maxGrid
+	if maxGrid == 0 {
+		maxGrid = c05MaxGrid
 	}
 	// pass 1: rounding outcomes only (selection grid of one point) -> every rounding sequence of the case and
 	// every sample factor it produces
@@ -299,10 +335,10 @@ func c05CheckCase(c *c05Case, meta *c05Meta, maxExec int64) (res c05CaseResult, 
 	for _, p := range paths {
 		o := byPath[p]
 		grid := 0
-		for n := 1; n <= c05MaxGrid && grid == 0; n++ {
+		for n := 1; n <= maxGrid && grid == 0; n++ {
 			ok := true
 			for i, ro := range o.rows {
-				if c05Alphabet[c.rows[i]].size < 1 || ro.sf <= 1 {
+				if rts[i].size < 1 || ro.sf <= 1 {
 					continue
 				}
 				if m := float64(n) / ro.sf; m < 0.5 || math.Abs(m-math.Round(m)) > 1e-9 {
@@ -349,8 +385,8 @@ func c05CheckCase(c *c05Case, meta *c05Meta, maxExec int64) (res c05CaseResult, 
 		T := len(g)
 		grid := grids[p]
 		fmt.Fprintf(&ob, "%s:", p)
-		for i := range c.rows {
-			rt := c05Alphabet[c.rows[i]]
+		for i := range rts {
+			rt := rts[i]
 			K := 0
 			sf := math.NaN()
 			sfConst := true
@@ -409,6 +445,203 @@ func c05CheckCase(c *c05Case, meta *c05Meta, maxExec int64) (res c05CaseResult, 
 		ob.WriteString(";")
 	}
 	res.outcome = ob.String()
+	return
+}
+
+// ---------- large-group family ----------
+//
+// One metric with N >= 64 identical rows in one sampler run (selection procedures may switch strategy on large
+// slices). Two regimes, chosen by what the code under test does, not by the harness:
+//
+//   - the whole choice tree fits the execution cap (few draws, e.g. a procedure that draws once per kept row
+//     when few rows are kept): decided exactly like every other case (c05CheckCase);
+//   - it does not (the real selectRandom draws once per row: grid^N leaves): deviation-bounded exploration
+//     (bound 1: every draw's whole grid with all other draws at their default). What this can decide, and only
+//     under the premise it checks on every explored execution - exactly one Float64 draw per selectable row, no
+//     other draws, every single-draw sweep changes the fate of exactly one row and of no other, no two sweeps
+//     touch the same row, factors never change -: the owner row of a draw is kept in exactly grid/SF of the grid
+//     values. That equals its keep probability provided draws do not conspire beyond single deviations, which
+//     a bound-1 exploration cannot see (stated in the notes). When the premise does not hold the case is
+//     reported as not decided (cap), never as a violation. Exactly-one-callback is asserted in every execution.
+type c05LargeResult struct {
+	regime  string // "exact", "bounded", "not-decided"
+	execs   int64
+	points  int64
+	viol    []c05Viol
+	infra   string
+	sampled bool
+	outcome string
+	stats   []mc.Stats
+}
+
+func c05CheckLarge(c *c05Case, meta *c05Meta, maxExecExact, maxExecBounded int64) (lr c05LargeResult) {
+	res, stats := c05CheckCase(c, meta, maxExecExact)
+	lr.stats = stats
+	lr.execs, lr.points = res.execs, res.points
+	lr.viol = res.viol
+	lr.infra = res.infra
+	if res.skipped == "" {
+		lr.regime = "exact"
+		lr.sampled = res.sampled
+		lr.outcome = "exact:" + res.outcome
+		return
+	}
+	if res.skipped != "tree-too-large" || res.grid < 2 {
+		lr.regime = "not-decided"
+		return
+	}
+	grid := res.grid
+	viol := func(sig, f string, a ...any) {
+		lr.viol = append(lr.viol, c05Viol{"C05:" + sig, fmt.Sprintf(f, a...) + " | case: " + c.String()})
+	}
+	cb := *c
+	cb.bounded = true
+	rts := cb.rowTypes()
+	type ex struct {
+		choices []int
+		obs     c05ExecObs
+	}
+	var all []ex
+	seen := map[string]bool{}
+	body := func(x *mc.Exec) mc.Verdict {
+		obs := c05Run(x, &cb, meta, grid, "")
+		key := fmt.Sprint(x.Choices)
+		if !seen[key] {
+			seen[key] = true
+			all = append(all, ex{append([]int{}, x.Choices...), obs})
+		}
+		for i, o := range obs.rows {
+			if o.keeps+o.discards != 1 {
+				return mc.Verdict{Violation: fmt.Sprintf("row %d (%s) got %d keep and %d discard callbacks | case: %s", i, rts[i].name, o.keeps, o.discards, cb.String()),
+					Sig: "C05:row-callbacks-not-exactly-one", Detail: cb.String()}
+			}
+		}
+		return mc.Verdict{}
+	}
+	st := mc.Explore(body, mc.Options{Bound: 1, Workers: 1, MaxExecutions: maxExecBounded})
+	lr.stats = append(lr.stats, st)
+	lr.execs += st.Executions
+	lr.points += st.Points
+	if !st.Exhaustive || len(st.Violations) > 0 {
+		lr.regime = "not-decided"
+		return
+	}
+	// default execution: all draws answer the first grid point
+	var def *ex
+	for i := range all {
+		zero := true
+		for _, ch := range all[i].choices {
+			if ch != 0 {
+				zero = false
+			}
+		}
+		if zero {
+			def = &all[i]
+		}
+	}
+	if def == nil {
+		lr.regime = "not-decided"
+		return
+	}
+	D := len(def.choices)
+	selectable := 0
+	for i, ro := range def.obs.rows {
+		if rts[i].size >= 1 && ro.sf > 1 {
+			selectable++
+		}
+	}
+	premise := def.obs.drawsN == 0 && def.obs.drawsF == D && D == selectable
+	owner := make([]int, D) // row owned by draw j
+	keptCount := make([]int, D)
+	for j := range owner {
+		owner[j] = -1
+	}
+	for _, e := range all {
+		if !premise {
+			break
+		}
+		if len(e.choices) != D || e.obs.drawsN != 0 || e.obs.drawsF != D {
+			premise = false
+			break
+		}
+		dev := -1
+		for j, ch := range e.choices {
+			if ch != 0 {
+				if dev >= 0 {
+					premise = false
+				}
+				dev = j
+			}
+		}
+		for i, ro := range e.obs.rows {
+			if ro.sf != def.obs.rows[i].sf {
+				premise = false
+			}
+			if dev >= 0 && ro.keeps != def.obs.rows[i].keeps {
+				if owner[dev] == -1 {
+					owner[dev] = i
+				} else if owner[dev] != i {
+					premise = false
+				}
+			}
+		}
+	}
+	if premise {
+		used := map[int]bool{}
+		for j := 0; j < D; j++ {
+			if owner[j] < 0 || used[owner[j]] {
+				premise = false
+				break
+			}
+			used[owner[j]] = true
+		}
+	}
+	if !premise {
+		lr.regime = "not-decided"
+		return
+	}
+	for _, e := range all {
+		dev := -1
+		for j, ch := range e.choices {
+			if ch != 0 {
+				dev = j
+			}
+		}
+		if dev < 0 {
+			for j := 0; j < D; j++ {
+				if e.obs.rows[owner[j]].keeps == 1 {
+					keptCount[j]++
+				}
+			}
+			continue
+		}
+		if e.obs.rows[owner[dev]].keeps == 1 {
+			keptCount[dev]++
+		}
+	}
+	lr.regime = "bounded"
+	var ob strings.Builder
+	for j := 0; j < D; j++ {
+		i := owner[j]
+		sf := def.obs.rows[i].sf
+		K := keptCount[j]
+		if m := float64(grid) / sf; math.Abs(m-math.Round(m)) > 1e-9 || m < 0.5 {
+			viol("harness-grid-not-aligned", "row %d: SF %v is not aligned with grid %d", i, sf, grid)
+			continue
+		}
+		if K < grid {
+			lr.sampled = true
+		}
+		if j == 0 || j == D-1 {
+			fmt.Fprintf(&ob, "%d/%d@%.4g,", K, grid, sf)
+		}
+		if K == 0 {
+			viol("row-never-kept", "large group: row %d is discarded for every value of the draw that decides it (others at default)", i)
+		} else if math.Abs(float64(K)*sf-float64(grid)) > 1e-9*float64(grid) {
+			viol("sf-times-keep-probability-not-1", "large group: row %d is kept for %d of the %d grid values of the one draw that decides it (all other draws at their default) but SF=%v, SF x P(keep) = %.6g", i, K, grid, sf, float64(K)*sf/float64(grid))
+		}
+	}
+	lr.outcome = fmt.Sprintf("bounded:D=%d:", D) + ob.String()
 	return
 }
 
@@ -586,6 +819,63 @@ func TestVerifC05(t *testing.T) {
 			rep.Infra(res.infra)
 		}
 	})
+	// large-group family (see c05CheckLarge)
+	type lg struct {
+		n, size int
+		budget  int64
+	}
+	larges := mc.Pick(
+		[]lg{{64, 2, 3}, {64, 3, 2}, {64, 1, 1}, {65, 2, 4}, {96, 1, 2}},
+		[]lg{{64, 2, 3}, {64, 3, 2}, {64, 1, 1}, {65, 2, 4}, {96, 1, 2}, {96, 2, 5}, {130, 1, 3}, {64, 2, 5}, {96, 3, 4}, {64, 2, 64}, {65, 1, 100}})
+	exactCap := int64(mc.Pick(5000, 300000))
+	boundedCap := int64(mc.Pick(60000, 200000))
+	largeRegimes := make([]string, len(larges))
+	c05Parallel(len(larges), func(i int) {
+		l := larges[i]
+		for _, fl := range []int{0, 2} { // without / with SampleKeepSingle (must not matter for a multi-row group)
+			c := &c05Case{flags: fl, budget: l.budget, largeN: l.n, largeSize: l.size, maxGrid: 400}
+			lr := c05CheckLarge(c, metas[0], exactCap, boundedCap)
+			mu.Lock()
+			nCases++
+			for _, st := range lr.stats {
+				total.Executions += st.Executions
+				total.Points += st.Points
+				if st.MaxDepth > total.MaxDepth {
+					total.MaxDepth = st.MaxDepth
+				}
+				total.Units += st.Units
+				total.InfraErrors = append(total.InfraErrors, st.InfraErrors...)
+				for _, v := range st.Violations {
+					rep.Violate(v.Sig, v.Desc, v.Detail)
+				}
+			}
+			if lr.sampled {
+				nNontrivial++
+			}
+			if fl == 0 {
+				largeRegimes[i] = fmt.Sprintf("%d rows x %d B, budget %d: %s", l.n, l.size, l.budget, lr.regime)
+				if lr.regime != "not-decided" {
+					rep.Sample(map[string]any{"large_group_case": c.String(), "regime": lr.regime, "executions": lr.execs, "first/last row kept/grid@SF": lr.outcome})
+				}
+			}
+			if lr.regime == "not-decided" {
+				rep.Cap("large-group case not decided (tree beyond the caps and draws not one-per-row): " + c.String())
+			} else if _, ok := outcomes[lr.outcome]; !ok {
+				outcomes[lr.outcome] = struct{}{}
+				rep.Outcome(lr.outcome)
+			}
+			for _, v := range lr.viol {
+				rep.Violate(v.sig, v.desc, map[string]any{"case": c.String()})
+			}
+			if lr.infra != "" {
+				rep.Infra(lr.infra)
+			}
+			mu.Unlock()
+		}
+	})
+	rep.Bounds["large_group_family"] = largeRegimes
+	rep.Bounds["large_group_caps"] = fmt.Sprintf("exact regime up to %d executions per case, else deviation bound 1 up to %d executions; grid <= 400", exactCap, boundedCap)
+	rep.Assume("large-group family (>= 64 identical rows): when the full choice tree exceeds the cap, the per-row keep fraction is measured over the grid of the one draw that decides the row with all other draws at their default (deviation bound 1), under the checked premise of one independent Float64 draw per row; coupling of draws beyond single deviations is outside what that regime can see")
 	rep.MergeExplore("sampler-draws", total)
 	rep.AddCounts(0, 0, nCases, nNontrivial)
 	rep.Bounds["cases"] = nCases
